@@ -48,7 +48,9 @@ RULE = (
     'two-pair chunk, every 2x2 / 1x3 / 3x1 string loop over the reduced alphabets, every scalar number form, numeric '
     'loops rows x cols x {plain, variances} x dtype, every sequence of <= 3 block items x comment/schema variants, '
     'multi-block files over the block-name alphabet, every builder call sequence up to the depth bound, every '
-    'alphabet string in every builder string slot; modify-after-write programs: write, then every sequence of public '
+    'alphabet string in every builder string slot (12 slots); reduced powder data over coordinate dim/unit x data unit x '
+    'comment x variances x name; input representations (mappings, sequences, views, one-shot iterables) of pairs, '
+    'columns, block/file contents, schemas, and python / numpy / 0-d variable / str-subclass values; modify-after-write programs: write, then every sequence of public '
     'mutators (column / key replace and add, comment and name setters, Block.add, mutation of shared items, with_* / '
     'copy / setters on a saved builder) with a write through two routes after every step; one state = one written document; a document is non-trivial when '
     'it contains at least one data item; distinct = distinct case hashes x inner index'
@@ -65,7 +67,9 @@ BOUND = {
     'quick': 'S=76 strings: S x 5 routes, S^2 ordered pairs, 12^4 2x2 loops, 34^3 1x3 and 3x1 loops, 73 scalar number '
     'forms x 2 routes, numeric loops 1..50 rows x 1..6 cols x {plain, variances} x 3 dtypes, block item sequences <= 3 over 8 '
     'items x 12 comment/schema variants, 1..3 blocks over the name alphabet, all builder call sequences of length <= 3 '
-    'over 26 operations (18279), S x 9 builder string slots; modify-after-write: all mutator sequences of length <= 2 '
+    'over 26 operations (18279), S x 12 builder string slots; 17 coordinate dim/unit combinations x 15 data units (x 4 comments x 4 variance '
+    'patterns x 5 names for the two pdCIF combinations); 14 pair representations x 7 entry points x 5 value sets, 7 '
+    'container representations x 6 entry points, 11 Loop column representations x 2 column sets; modify-after-write: all mutator sequences of length <= 2 '
     'for Loop (45 mutators) and Chunk (44), <= 3 for Block (21) and the saved builder (12)',
     'thorough': 'same with 16^4 2x2 loops, 76^3 1x3 and 3x1 loops, and all builder sequences of length 4 over the '
     '10-operation core; modify-after-write sequences of length 3 for Loop and Chunk',
